@@ -180,11 +180,11 @@ def handle (j : Json) : Json :=
         getObj? j "linetype", getStr? j "text" with
     | some cs, some base, some r, some lt, some t =>
       let base := base.map String.toList
-      if r = "dot" then Json.mkObj (("text", optS (mmDot cs base)) :: ("domain", toJson (cs.all clsOkB)) :: recJ t.toList)
+      if r = "dot" then Json.mkObj (("text", optS (mmDot cs base)) :: ("domain", toJson (cs.all clsOkB && mmClosedB cs && mmIdsDistinctB cs)) :: recJ t.toList)
       else if r = "puml" then
         match (if lt.isNull then some none else (asStr? lt).map (some ·.toList)) with
         | some lt =>
-          Json.mkObj [("text", optS (mmPuml cs base lt)), ("domain", toJson (cs.all pclsOkB && linetypeOkB lt)),
+          Json.mkObj [("text", optS (mmPuml cs base lt)), ("domain", toJson (cs.all pclsOkB && linetypeOkB lt && mmClosedB cs)),
             ("puml", match pumlRecognise t.toList with
               | some cls => Json.arr (cls.map S).toArray
               | none => Json.null)]
